@@ -33,6 +33,10 @@ func genFunc(w *World, fs *FuncSpec) (*Gen, error) {
 	}
 	g := newGen(w, fn, fs, key, fs.Mode == "bv")
 	g.abstractMod = fs.AbstractMod
+	for _, sname := range fs.Stable {
+		g.stableSuffix = append(g.stableSuffix, strings.ReplaceAll(sname, ".", "_"))
+	}
+	g.stableSeen = map[string]bool{}
 	func() {
 		defer func() {
 			if r := recover(); r != nil {
@@ -45,6 +49,13 @@ func genFunc(w *World, fs *FuncSpec) (*Gen, error) {
 		g.run()
 	}()
 	delete(deferStacks, g)
+	for _, k := range g.stableSuffix {
+		if !g.stableSeen[k] {
+			g.errs = append(g.errs, fmt.Sprintf("contract drift: stable field %s of %s is never read in the function", k, fs.Name))
+		} else {
+			g.note(fmt.Sprintf("ASSUMED stable in %s: no callee writes %s (configuration set at construction)", g.key, k))
+		}
+	}
 	// unmatched call rules are vacuous
 	for _, r := range fs.Calls {
 		if r.Matched == 0 {
